@@ -7,7 +7,7 @@
    encoder of the specification's grammar (ascii tokens, little- and big-endian bytes).  The reader model is
    [read_vertices_bin/ascii] with the built readers [bs], [faces_bin], [parse_header]. *)
 From PF Require Import Base.Bytes Formats.PlyRead Formats.PlyReadSpec Formats.PlyReadProofs Formats.PlyReadMesh.
-From Coq Require Import String.
+From Coq Require Import String Lia.
 Open Scope list_scope.
 Open Scope N_scope.
 
@@ -292,3 +292,47 @@ Example c08_example :
   option_map m_idx (match read_mesh (encode a) with Ok m => Some m | Err _ => None end) = Some [0; 1; 2; 0; 2; 3; 3; 1; 0]%Z /\
   (match read_mesh (encode a), describe a with Ok m, Ok m' => mesh_eqb m m' | _, _ => false end) = true.
 Proof. vm_compute. repeat split; reflexivity. Qed.
+
+Ltac fits := unfold record_ok; repeat (apply Forall2_cons || apply Forall2_nil); unfold word_fits; cbn; lia.
+
+(* non-vacuity of the end-to-end hypotheses: an ascii point cloud with the position split around a colour group and an
+   int scalar, and a big-endian mesh with a double before the position, a quad and a triangle *)
+Example pointcloud_ok_example :
+  let ps : vprops := [(Float, "y"); (UChar, "red"); (UChar, "green"); (Float, "x"); (UChar, "blue"); (Int, "id"); (Float, "z")]%string in
+  pointcloud_ok {| a_fmt := ASCII; a_vprops := ps;
+                   a_verts := [[1073741824; 255; 128; 1065353216; 0; 16777217; 1077936128]; [0; 1; 2; 3; 4; 5; 6]];
+                   a_fprops := None; a_faces := [] |}.
+Proof.
+  cbv zeta. unfold pointcloud_ok. cbn [a_fmt a_vprops a_verts a_fprops a_faces].
+  split; [reflexivity|]. split; [reflexivity|]. split; [discriminate|].
+  split; [repeat constructor; cbn; intuition discriminate|].
+  split; [repeat constructor|].
+  split; [repeat constructor; fits|].
+  vm_compute spec_entries. repeat constructor; intros _; discriminate.
+Qed.
+
+Example trimesh_ok_example :
+  let ps : vprops := [(Double, "time"); (Float, "x"); (UChar, "red"); (Float, "y"); (Float, "z"); (Int, "id")]%string in
+  let rec := [4591870180066957722; 1065353216; 255; 1073741824; 1077936128; 16777217] in
+  let fps := [(UChar, UChar, "flags"); (UChar, Int, "vertex_indices")]%string in
+  trimesh_ok {| a_fmt := BinBE; a_vprops := ps; a_verts := [rec; rec; rec; rec];
+                a_fprops := Some fps; a_faces := [[[7]; [0; 1; 2; 3]]; [[]; [3; 1; 0]]] |} fps 1 UChar Int.
+Proof.
+  cbv zeta. unfold trimesh_ok. cbn [a_fmt a_vprops a_verts a_fprops a_faces].
+  split; [reflexivity|]. split; [discriminate|].
+  split; [repeat constructor; cbn; intuition discriminate|].
+  split; [repeat constructor|].
+  split; [repeat constructor; fits|].
+  split; [apply Forall_forall; intros x _ H; discriminate H|].
+  split; [repeat constructor|].
+  split; [reflexivity|]. split; [reflexivity|]. split; [reflexivity|]. split; [reflexivity|].
+  split.
+  - assert (L : forall r ws, count_ty_ok (fst r) = true -> N.of_nat (List.length ws) < 256 ->
+                Forall (word_fits (snd r)) ws -> list_ok r ws).
+    { intros r ws C Ln F. unfold list_ok. repeat split; try assumption; [|lia].
+      destruct r as [[] ?]; try discriminate C; unfold word_fits; cbn; lia. }
+    apply Forall_cons; [split; [|right; reflexivity]|apply Forall_cons; [split; [|left; reflexivity]|constructor]];
+      (apply Forall2_cons; [|apply Forall2_cons; [|apply Forall2_nil]]); apply L; cbn; try reflexivity; try lia;
+      repeat constructor; unfold word_fits; cbn; lia.
+  - repeat constructor; lia.
+Qed.
